@@ -150,6 +150,33 @@ Proof.
 Qed.
 Print Assumptions C29_nodes_nonvacuous.
 
+(* ---- the repository path (several models, one subgraph block per model file, one processed set, references
+   across files): the node statements are those of exactly the objects reachable from any of the models, each once;
+   the subgraph blocks contribute no node statement of their own (their members are bare ids) *)
+Theorem C29_repo_nodes : forall st roots, (forall r, In r (map fst roots) -> r < length st) ->
+  NoDup (node_ids (fst (export_repo st roots)))
+  /\ forall k, In k (node_ids (fst (export_repo st roots))) <-> reach_any st (map fst roots) k.
+Proof. exact export_repo_nodes_exact. Qed.
+Print Assumptions C29_repo_nodes.
+
+(* two files: model 0 contains 1; model 2 contains 3, and 1 refers to 3 across files: 3 is written while model 0 is
+   exported and not again with its own model *)
+Example C29_repo_nonvacuous :
+  let a (name : list N) (c l : bool) (v : aval) := mkAttr name c true l v in
+  let st := [mkObj [77]%N [a [107]%N true true (VList [IObj 1])];
+             mkObj [65]%N [a [114]%N false false (VObj 3)];
+             mkObj [77]%N [a [107]%N true true (VList [IObj 3])];
+             mkObj [66]%N []] in
+  node_ids (fst (export_repo st [(0%nat, [102]%N); (2%nat, [103]%N)])) = [3; 1; 0; 2]%nat
+  /\ children st 5 2 [] = [2; 3]%nat
+  /\ reach_any st [0; 2]%nat 3.
+Proof.
+  cbn zeta. split; [vm_compute; reflexivity|]. split; [vm_compute; reflexivity|].
+  exists 2%nat. split; [cbn; tauto|]. apply (reach_step _ 2 2 3); [constructor|].
+  eexists. split; [reflexivity|]. split; [cbn; tauto | cbn; lia].
+Qed.
+Print Assumptions C29_repo_nonvacuous.
+
 (* ---- metamodel exports.  ExportMeta.mm_stmts transcribes metamodel_export_tofile over the class list of
    get_unified_classes for any renderer; with DotRenderer / PlantUmlRenderer it is compared text for text with
    the implementation on every generated metamodel.  has_node c: c is in the exported list (fqn not a built-in
